@@ -261,6 +261,17 @@ def World.step (w : World) : Act → Option (World × List (Nat × Nat))
       | none => none
       | some (x', woke) => some ({ insts := aset i x' w.insts }, woke.map (fun r => (i, r)))
 
+/-- **Nested start**: `wf_i.run()` called by code that runs *inside a step* of run `pr` of
+instance `pi` (the step itself, or a task it spawned — asyncio tasks copy their creator's
+context).  Such a caller exists only while `(pi, pr)` is inside its limit; `run_workflow`
+does `asyncio.create_task(run_with_concurrency_limit())` whoever calls it and
+`_maybe_acquire_max_concurrent_runs` looks at nothing but the workflow instance, so the
+effect is that of `start` — also when `pi = i`. -/
+def World.nstart (w : World) (pi pr i r : Nat) : Option (World × List (Nat × Nat)) :=
+  match w.get pi with
+  | none => none
+  | some p => if pr ∈ p.holding then w.step (.on i (.start r)) else none
+
 /-- total version: an action that is not enabled leaves the state alone -/
 def World.stepD (w : World) (a : Act) : World :=
   match w.step a with
@@ -269,6 +280,22 @@ def World.stepD (w : World) (a : Act) : World :=
 
 /-- the state after an arbitrary action list (= arbitrary schedule and environment) -/
 def exec (acts : List Act) : World := acts.foldl World.stepD {}
+
+/-- action lists in which runs are also started from inside steps of running runs -/
+inductive NAct where
+  | act (a : Act)
+  /-- run `pr` of instance `pi`, executing a step, starts run `r` of instance `i` -/
+  | nstart (pi pr i r : Nat)
+  deriving DecidableEq, Repr
+
+def World.nstepD (w : World) : NAct → World
+  | .act a => w.stepD a
+  | .nstart pi pr i r =>
+    match w.nstart pi pr i r with
+    | some (w', _) => w'
+    | none => w
+
+def execN (nacts : List NAct) : World := nacts.foldl World.nstepD {}
 
 /-! ## vocabulary of the property statements -/
 
@@ -338,6 +365,12 @@ def Sched.ext (s : Sched) (a : Act) : Option Sched :=
   | some (w', woke) => some { w := w', ready := s.ready ++ woke }
   | none => none
 
+/-- a nested start seen by the event loop: the new task joins the ready queue like any other -/
+def Sched.nstart (s : Sched) (pi pr i r : Nat) : Option Sched :=
+  match s.w.nstart pi pr i r with
+  | some (w', woke) => some { w := w', ready := s.ready ++ woke }
+  | none => none
+
 /-- what a task of the ready queue does when it is stepped -/
 def taskAct (w : World) (i r : Nat) : Option Act :=
   match w.get i with
@@ -372,6 +405,7 @@ inductive SOp where
   | ext (a : Act)
   | tick
   | settle (fuel : Nat)
+  | nstart (pi pr i r : Nat)
   deriving Repr
 
 def Sched.op (s : Sched) : SOp → Sched
@@ -380,6 +414,7 @@ def Sched.op (s : Sched) : SOp → Sched
     | some (s', _, _) => s'
     | none => s
   | .settle fuel => s.settle fuel
+  | .nstart pi pr i r => (s.nstart pi pr i r).getD s
 
 /-- total version of `Inst.step` -/
 def Inst.stepD (x : Inst) (a : IAct) : Inst :=
